@@ -24,6 +24,8 @@ pub enum FilterOp {
     RemoveTsi(usize, u64),
     AddAll(usize),
     RemoveAll(usize),
+    /// set_tsi_filtering(enable): registrations keep being recorded while filtering is off
+    SetFiltering(bool),
 }
 
 #[derive(Clone, Debug, PartialEq, Serialize, Deserialize)]
@@ -63,6 +65,8 @@ fn all_ops() -> Vec<FilterOp> {
         v.push(FilterOp::AddAll(e));
         v.push(FilterOp::RemoveAll(e));
     }
+    v.push(FilterOp::SetFiltering(false));
+    v.push(FilterOp::SetFiltering(true));
     v
 }
 
@@ -370,10 +374,16 @@ fn run_demux(sessions: &[SenderScn], recv: &RecvSpec, jitter_us: u64, cleanup_ev
     ctx.borrow_mut().nontrivial = true;
 }
 
-#[derive(Default)]
 struct FilterModel {
     all: BTreeMap<usize, u64>,
     tsi: BTreeMap<(u64, usize), u64>,
+    enabled: bool,
+}
+
+impl Default for FilterModel {
+    fn default() -> Self {
+        FilterModel { all: BTreeMap::new(), tsi: BTreeMap::new(), enabled: true }
+    }
 }
 
 impl FilterModel {
@@ -391,10 +401,14 @@ impl FilterModel {
                     *c = c.saturating_sub(1);
                 }
             }
+            FilterOp::SetFiltering(b) => self.enabled = *b,
         }
     }
     /// endpoint indices: 0 = (no source, g1), 1 = (source, g1), 2 = (no source, g2), 3 = (source, g2)
     fn accepts(&self, e: usize, tsi: u64) -> bool {
+        if !self.enabled {
+            return true;
+        }
         if self.all.get(&e).copied().unwrap_or(0) > 0 {
             return true;
         }
@@ -424,6 +438,7 @@ fn run_filter(seqs: &[Vec<FilterOp>], ctx: &Ctx) {
                     FilterOp::RemoveTsi(e, t) => r.remove_listen_tsi(&eps[*e], *t),
                     FilterOp::AddAll(e) => r.add_listen_all_tsi(eps[*e].clone()),
                     FilterOp::RemoveAll(e) => r.remove_listen_all_tsi(&eps[*e]),
+                    FilterOp::SetFiltering(b) => r.set_tsi_filtering(*b),
                 }
             }
             model.apply(op);
